@@ -158,7 +158,11 @@ def ff_getters(repo, res, ty, rule="FF"):
         if ok:
             m = [A.resolve(x, envs.get(id(a1[0]))) for x in a1[0]["args"]]
             c = [A.resolve(x, envs.get(id(a2[0]))) for x in a2[0]["args"]]
-            ok = m[1] == c[4] and m[2] == c[1] and m[0] == c[0] and m[3] == c[2] and m[4] == c[3] and ("get_all_literals" in A.show(m[1]) or "get_all_literals" in A.reach_calls(a1[0]["args"][1], envs.get(id(a1[0])), fn=fn, envs=envs))
+            # by value, not by position (the two builders may order their parameters differently): the automaton, the literal-id map,
+            # the command-id set and the two code flags handed to the completion builder are among what the match builder gets
+            common = [x for x in c if x in m]
+            idmaps = [x for i, x in enumerate(m) if "get_all_literals" in A.show(x) or "get_all_literals" in A.reach_calls(a1[0]["args"][i], envs.get(id(a1[0])), fn=fn, envs=envs)]
+            ok = len(common) >= 5 and any(x in common for x in idmaps)
         res.check(ok, rule, f"{rule}:tables::get_lookup_tables", "match and completion tables are built from the same automaton, the same literal-id map (from get_all_literals), the same command-id set and the same flags", fn.loc())
         sites = [s for s in P.ctor_sites(fn.body, "LookupTables") if s["k"] == "Struct"]
         if sites:
